@@ -25,7 +25,20 @@ def c04_struct(tier="quick", seed=0):
             if isinstance(n, ast.Raise) and n.exc is not None:
                 cls = ast.unparse(n.exc.func) if isinstance(n.exc, ast.Call) else ast.unparse(n.exc)
                 seen.setdefault(cls, []).append(f"{mod.split('.')[-1]}:{n.lineno}")
+    # private exception classes of the package (defined in src/microjs, outside the JSError family) are acceptable
+    # when the package itself catches them: some handler names the class (its conversion site)
+    defined, caught = set(), set()
+    for mod, mi in S.source().modules.items():
+        for n in ast.walk(mi.tree):
+            if isinstance(n, ast.ClassDef) and any(getattr(b, "id", "") in ("Exception", "BaseException") for b in n.bases):
+                defined.add(n.name)
+            if isinstance(n, ast.ExceptHandler) and n.type is not None:
+                for t in (n.type.elts if isinstance(n.type, ast.Tuple) else [n.type]):
+                    caught.add(ast.unparse(t).split(".")[-1])
     for cls, sites in sorted(seen.items()):
+        private_ok = cls in defined and cls in caught and cls not in ALLOWED
+        if private_ok and cls not in CONVERTED:
+            CONVERTED[cls] = "private class of the package, caught by the package itself"
         ok = cls in ALLOWED or cls in CONVERTED or cls in ("self._error", "self._syntax_error", "e", "ex")
         out.append(ob(f"C04.struct.raise.{cls}", ok, "K3", f"{len(sites)} raise sites of {cls}: " + ("JSError family" if cls in ALLOWED else CONVERTED.get(cls, "re-raise / parser error helper") if ok else f"a host exception class raised at {sites[:4]}"),
                       witness=(f"the code path reaching {sites[0]}" if not ok else None)))
